@@ -81,6 +81,7 @@ struct Result {
 	uint64_t fingerprint;   // schedule / history fingerprint
 	int nontrivial;
 	uint64_t steps, handoffs, vtime_ns;
+	int recycle;            // the run left process-wide state behind (e.g. a simulated process was killed): start a fresh worker
 };
 
 // failure reporting (first failure wins). When tasks are running the run is
@@ -95,6 +96,7 @@ Result &result();
 void ev(uint32_t kind, int64_t a = 0, int64_t b = 0, int64_t c = 0);
 void fp_mix(uint64_t v);
 void set_nontrivial(int v);
+void request_recycle();   // ask the driver for a fresh worker process after this run
 
 // counters (registered by name once; cheap increments)
 int counter_id(const char *group, const char *name);   // group: "probe" | "fault" | "stat"
